@@ -98,7 +98,9 @@ pub fn case(ctx: &Ctx, idx: u64) -> CaseOut {
     out.count("segments", inst.trips.len() as u64);
     if inst.trips.len() > 12 {
         // size class of the larger instances: completed peers need up to ~40 CPU-s
-        crate::orch::announce_cpu_budget(600.0);
+        // the biggest ones with maintenance (45 departures, 60+ segments) were seen to need
+        // more than 500 s on a loaded machine: slow is not hung
+        crate::orch::announce_cpu_budget(if inst.trips.len() > 30 { 3600.0 } else { 600.0 });
         out.count("instances_gt_12_segments", 1);
     }
 
